@@ -173,7 +173,11 @@ type world struct {
 	invPaths      []string // override of the invocation path pool
 	fixedPriority bool
 
-	alwaysRetry  bool
+	alwaysRetry bool
+	// injection, when set, runs once at the next lock-held injection
+	// point (operation name generation, learner callbacks).
+	injection    func()
+	injectionRan bool
 	execAuthGate gate
 	killAuthGate gate
 	pendingKills []*pendingKill
@@ -241,7 +245,7 @@ func newWorld(rt *rapid.T, cfg worldConfig) *world {
 		}
 		router = demux
 	}
-	uuids := &counterUUIDs{}
+	uuids := &counterUUIDs{w: w}
 	w.bq = scheduler.NewInMemoryBuildQueue(w.cas, w.clk, uuids.next, &scheduler.InMemoryBuildQueueConfiguration{
 		ExecutionUpdateInterval:              updateInterval,
 		OperationWithNoWaitersTimeout:        noWaitersTimeout,
@@ -640,6 +644,97 @@ func (w *world) stepCancelSync() bool {
 	w.record("cancelSync", fmt.Sprintf("worker=%d", wk.idx))
 	wk.cancel()
 	w.quiesce()
+	return true
+}
+
+// ---------------------------------------------------------------- lock-held injection
+
+func (w *world) injectUnderLock() {
+	if f := w.injection; f != nil {
+		w.injection = nil
+		w.injectionRan = true
+		f()
+	}
+}
+
+// stepExecuteRacingTimer lets a due timer (idle Synchronize timer of a
+// blocked worker, update timer of a waiting stream) deliver its tick while
+// an Execute call holds the scheduler lock: the woken goroutine then has to
+// re-acquire the lock after the Execute call changed the state (direct
+// hand-off to that very worker, deduplication onto that very stream's task).
+func (w *world) stepExecuteRacingTimer(instancePool []string) bool {
+	ids := w.clk.pendingTimers()
+	if len(ids) == 0 {
+		return false
+	}
+	id := ids[rapid.IntRange(0, len(ids)-1).Draw(w.rt, "timer")]
+	dl, _ := w.clk.deadlineOf(id)
+	rec := w.record("raceTimerWithExecute", fmt.Sprintf("timer#%d due at %s is delivered while the next Execute holds the lock", id, dl.Sub(w.m.startAt)))
+	if !w.clk.advanceToDeadlineWithoutFiring(id, w.m.observe) {
+		rec.Out = "timer vanished"
+		w.quiesce()
+		return true
+	}
+	w.m.observe()
+	w.injectionRan = false
+	w.injection = func() { w.clk.deliver(id) }
+	w.stepExecute(instancePool)
+	if !w.injectionRan {
+		// The Execute call never generated an operation name: deliver
+		// the tick the ordinary way.
+		w.injection = nil
+		w.clk.deliver(id)
+		rec.Out = "not raced"
+	} else {
+		rec.Out = "raced"
+		w.m.label("timer_delivered_under_lock")
+	}
+	w.quiesce()
+	return true
+}
+
+// stepCompleteRacingCancel cancels the context of a blocked Synchronize
+// call or of a waiting stream while a worker's completion is being
+// processed under the scheduler lock.
+func (w *world) stepCompleteRacingCancel() bool {
+	var cands []*workerSim
+	for _, wk := range w.workers {
+		if wk.inFlight == nil && wk.believes != nil {
+			cands = append(cands, wk)
+		}
+	}
+	if len(cands) == 0 {
+		return false
+	}
+	wk := cands[rapid.IntRange(0, len(cands)-1).Draw(w.rt, "worker")]
+	var victims []func()
+	var names []string
+	for _, o := range w.workers {
+		if o.inFlight != nil && o != wk {
+			o := o
+			victims = append(victims, func() { o.cancel() })
+			names = append(names, fmt.Sprintf("Synchronize of worker %d", o.idx))
+		}
+	}
+	for _, s := range w.liveStreams() {
+		s := s
+		victims = append(victims, func() { s.cancelled = true; s.cancel() })
+		names = append(names, fmt.Sprintf("stream %d", s.id))
+	}
+	if len(victims) == 0 {
+		return false
+	}
+	v := rapid.IntRange(0, len(victims)-1).Draw(w.rt, "victim")
+	ck := rapid.SampledFrom(completionKinds).Draw(w.rt, "completion")
+	w.record("raceCancelWithCompletion", fmt.Sprintf("%s is cancelled while the completion of worker %d is processed under the lock", names[v], wk.idx))
+	w.injectionRan = false
+	w.injection = victims[v]
+	w.sync(wk, "completed", rapid.Bool().Draw(w.rt, "preferIdle"), ck)
+	if !w.injectionRan {
+		w.injection = nil
+	} else {
+		w.m.label("cancel_delivered_under_lock")
+	}
 	return true
 }
 
